@@ -1,4 +1,5 @@
 import Proofs.C15.SatBase
+import Proofs.C15.Dp
 /-!
 C15 — every element of a stack the satisfier proposes is small (a signature, a key, a preimage,
 0x01 or empty): at most 73 bytes, well under the interpreter's 520.
@@ -42,6 +43,58 @@ theorem small_sig (hS : SigsSmall ctx env) (k : Key) : Small (sigInput ctx env k
   | some σ =>
     exact Small_lit σ (Nat.le_trans (hS k σ ho) (sigSize_le ctx)) _ rfl
 
+/-- every entry of a `reached` list is small. -/
+def SmallAll (r : List Input) : Prop := AllIdx (fun _ i => Small i) 0 r
+
+theorem SmallAll_getD {r : List Input} (h : SmallAll r) (j : Nat) : Small (r.getD j noWitness) := by
+  have := AllIdx_getD (fun _ i => Small i) noWitness (fun _ => Small_none) 0 r j h
+  simpa using this
+
+theorem small_multiStep {unused sig : Input} {r : List Input} (hu : Small unused) (hs : Small sig)
+    (hr : SmallAll r) : SmallAll (multiStep unused r sig) :=
+  dpStep_idx (fun _ i => Small i) (fun _ i => Small i) _ _ _
+    (fun _ h => Small_both h hu)
+    (fun _ _ _ hp hc => Small_better (Small_both hc hu) (Small_both hp hs))
+    (fun _ _ hl => Small_both hl hs) r hr
+
+theorem small_threshStep {sub : Inputs} {r : List Input} (hs : Small sub.sat) (hd : Small sub.dsat)
+    (hr : SmallAll r) : SmallAll (threshStepIn r sub) :=
+  dpStep_idx (fun _ i => Small i) (fun _ i => Small i) _ _ _
+    (fun _ h => Small_both h hd)
+    (fun _ _ _ hp hc => Small_better (Small_both hc hd) (Small_both hp hs))
+    (fun _ _ hl => Small_both hl hs) r hr
+
+theorem small_multiDsat : ∀ k, Small (multiDsat k)
+  | 0 => Small_lit [] (by simp) zeroPush rfl
+  | k + 1 => Small_both (small_multiDsat k) (Small_lit [] (by simp) zeroPush rfl)
+
+theorem small_threshDsat (k : Nat) : ∀ (r : List Input) (c i : Nat) (acc : Input),
+    AllIdx (fun _ i => Small i) i r → Small acc → Small (threshDsat k c r acc)
+  | [], _, _, acc, _, ha => ha
+  | x :: r, c, i, acc, hr, ha => by
+    simp only [threshDsat]
+    refine small_threshDsat k r (c + 1) (i + 1) _ hr.2 ?_
+    split
+    · exact ha
+    · refine Small_better ha ?_
+      split
+      · exact hr.1
+      · exact fun w h => hr.1 w (by simpa using h)
+
+theorem small_noPushes : Small noPushes := by
+  intro w h e he; simp [noPushes] at h; subst h; simp at he
+
+/-- every argument's candidates are small. -/
+def SmallL : List Inputs → Prop
+  | [] => True
+  | i :: rest => (Small i.sat ∧ Small i.dsat) ∧ SmallL rest
+
+theorem small_thresh_foldr : ∀ (subs : List Inputs), SmallL subs →
+    SmallAll (subs.foldr (fun sub r => threshStepIn r sub) [noPushes])
+  | [], _ => ⟨small_noPushes, trivial⟩
+  | i :: rest, h => small_threshStep h.1.1 h.1.2 (small_thresh_foldr rest h.2)
+
+mutual
 theorem small_s1 (hS : SigsSmall ctx env) : ∀ (n : Ms), inS1 n = true → shaped ctx n = true →
     SmallN ctx env n
   | .f0, _, _ => ⟨Small_none, fun w h e he => by simp [inputs, noPushes] at h; subst h; simp at he⟩
@@ -118,7 +171,44 @@ theorem small_s1 (hS : SigsSmall ctx env) : ∀ (n : Ms), inS1 n = true → shap
     simp only [SmallN, inputs, andorInput]
     exact ⟨Small_better (Small_both ys xs) (Small_both zs xd),
       Small_better (fun w h => Small_both yd xs w (by simpa using h)) (Small_both zd xd)⟩
-  | .multi _ _, h, _ | .multi_a _ _, h, _ | .thresh _ _ _, h, _ => by simp [inS1] at h
+  | .multi k keys, _, _ => by
+    have hall : ∀ (ks : List Key) (r : List Input), SmallAll r →
+        SmallAll (ks.foldl (fun r key => multiStep noPushes r (sigInput ctx env key)) r) := by
+      intro ks
+      induction ks with
+      | nil => intro r h; exact h
+      | cons key ks ih =>
+        intro r h
+        exact ih _ (small_multiStep small_noPushes (small_sig ctx env hS key) h)
+    have h0 : SmallAll [zeroPush] := ⟨Small_lit [] (by simp) zeroPush rfl, trivial⟩
+    simp only [SmallN, inputs, multiInput, Bool.false_eq_true, if_false]
+    exact ⟨SmallAll_getD (hall keys _ h0) k, small_multiDsat k⟩
+  | .multi_a k keys, _, _ => by
+    have hall : ∀ (ks : List Key),
+        SmallAll (ks.foldr (fun key r => multiStep zeroPush r (sigInput ctx env key)) [noPushes]) := by
+      intro ks
+      induction ks with
+      | nil => exact ⟨small_noPushes, trivial⟩
+      | cons key ks ih =>
+        exact small_multiStep (Small_lit [] (by simp) zeroPush rfl) (small_sig ctx env hS key) ih
+    simp only [SmallN, inputs, multiInput, if_true]
+    exact ⟨SmallAll_getD (hall keys) k, SmallAll_getD (hall keys) 0⟩
+  | .thresh k x xs, hin, hs => by
+    simp only [inS1, Bool.and_eq_true] at hin
+    simp only [shaped, Bool.and_eq_true] at hs
+    have hx := small_s1 hS x hin.1 hs.1.2
+    have hxs := small_s1L hS xs hin.2 hs.2
+    have hall := small_thresh_foldr (inputs ctx env x :: inputsL ctx env xs) ⟨hx, hxs⟩
+    simp only [SmallN, inputs, threshInput]
+    exact ⟨SmallAll_getD hall k, small_threshDsat k _ 0 0 _ hall Small_none⟩
+theorem small_s1L (hS : SigsSmall ctx env) : ∀ (xs : MsL), inS1L xs = true → shapedL ctx xs = true →
+    SmallL (inputsL ctx env xs)
+  | .nil, _, _ => trivial
+  | .cons x xs, hin, hs => by
+    simp only [inS1L, Bool.and_eq_true] at hin
+    simp only [shapedL, Bool.and_eq_true] at hs
+    exact ⟨small_s1 hS x hin.1 hs.1, small_s1L hS xs hin.2 hs.2⟩
+end
 
 end
 
